@@ -728,15 +728,15 @@ def weak_family_doc(label, form, variant):
 
 
 def family_variants(doc, rng, budget):
-    """ALL orders of the declarations of the (single) module block when <= 5 of them (else
-    `budget` random ones), each combined with a shuffle of the bodies"""
+    """ALL orders of the declarations of the (single) module block (an evenly spaced sample of
+    `budget` of them when there are more), each combined with a shuffle of the bodies"""
     ents = G.sites(doc, 'module')[0]
     n = len(ents)
     perms = list(itertools.permutations(range(n)))[1:]
-    full = n <= 5 or len(perms) <= budget
+    full = len(perms) <= budget
     if not full:
-        rng.shuffle(perms)
-        perms = perms[:budget]
+        step = (len(perms) - 1) / (budget - 1)
+        perms = [perms[round(i * step)] for i in range(budget)]
     out = []
     for p in perms:
         d = G.copy_doc(doc)
@@ -745,6 +745,176 @@ def family_variants(doc, rng, budget):
             rng.shuffle(sbody)
         out.append((f'module[0]:{",".join(map(str, p))}', 'module', d))
     return out, {'module': full}
+
+
+# ------------------------------------------------------- cross-module inheritance families
+# Deterministic documents: every way a declaration can refer to an INHERITED pointer x where
+# the declaring ancestor lives (same module | another module | two levels up across two modules
+# | in a nested module a::b).  Each name-construction site of declarative.py / tracer.py
+# (`QualName(module=…)`, `qualify_name`) that picks the wrong module silently drops an edge;
+# the model names an ancestor's pointer by looking the declaration up (no module arithmetic),
+# so a dropped edge shows as a graph difference and as an order-dependent rejection.
+XMOD_PLACEMENTS = {
+    # name: (module of Base, module of Mid or None, module of Sub, module of Target / function / alias)
+    'same': ('default', None, 'default', 'default'),
+    'other': ('m1', None, 'm2', 'default'),
+    'other-t': ('m1', None, 'm2', 'mt'),        # the referring type is not in `default` either
+    'other-s': ('m1', None, 'm2', 'm2'),        # ... or shares the subtype's module (unqualified names)
+    'two-up': ('m1', 'm2', 'default', 'default'),
+    'nested': ('a::b', None, 'a', 'default'),
+}
+XMOD_KINDS = ('backlink', 'backlink-overloaded', 'own-path', 'nav', 'function', 'lprop', 'index-constraint',
+              'overload-default', 'alias', 'policy', 'diamond', 'mid-overload', 'abslink-lprop',
+              'count-type', 'call', 'con-anno')
+
+
+def _xmod_universe(kind, placement):
+    mb, mm, ms, mt = XMOD_PLACEMENTS[placement]
+    mods = ['default'] + sorted({m for m in (mb, mm, ms, mt) if m and m != 'default'})
+    if 'a::b' in mods and 'a' not in mods:
+        mods.append('a')
+    u = G.Universe(mods)
+    Tg = G.TypeInfo(mt, 'XTarget')
+    Base = G.TypeInfo(mb, 'XBase', abstract=False)
+    Base.extras = [('con_expr', G.Op('!=', G.Path(None, [('p', 'name')]), G.Lit('zz')))]
+    parent = G.PtrInfo('parent', 'link', Tg, lprops=['lp'])
+    name = G.PtrInfo('name', 'prop', 'str', extras=[('con_std', 'exclusive'), ('anno_std', 'title', 'n')])
+    Base.own['parent'] = parent
+    Base.own['name'] = name
+    chain = [Base]
+    if mm is not None or kind in ('mid-overload',):
+        Mid = G.TypeInfo(mm or mb, 'XMid', bases=[Base], rank=1)
+        chain.append(Mid)
+        if kind == 'mid-overload':
+            Mid.own['name'] = G.PtrInfo('name', 'prop', 'str', overloaded=True,
+                                        extras=[('anno_std', 'description', 'm')])
+    Sub = G.TypeInfo(ms, 'XSub', bases=[chain[-1]], rank=2)
+    types = [Tg] + chain + [Sub]
+    if kind == 'diamond':
+        Mid2 = G.TypeInfo(ms, 'XMidB', bases=[Base], rank=1)
+        if len(chain) == 1:
+            MidA = G.TypeInfo(mb, 'XMidA', bases=[Base], rank=1)
+            types.insert(-1, MidA)
+            Sub.bases = [MidA, Mid2]
+        else:
+            Sub.bases = [chain[-1], Mid2]
+        types.insert(-1, Mid2)
+    sname = G.Path(None, [('p', 'name')])
+    if kind in ('backlink', 'backlink-overloaded'):
+        if kind == 'backlink-overloaded':
+            Sub.own['parent'] = G.PtrInfo('parent', 'link', Tg, overloaded=True, extras=[('anno_std', 'title', 'o')])
+        kids = G.PtrInfo('kids', 'link', Sub, multi=True)
+        kids.computed = G.Path(None, [('b', 'parent', Sub)])
+        Tg.own['kids'] = kids
+    elif kind in ('own-path', 'diamond', 'mid-overload'):
+        c = G.PtrInfo('c', 'prop', 'str')
+        c.computed = G.Op('++', sname, G.Lit('x'))
+        Sub.own['c'] = c
+    elif kind == 'nav':
+        Tg.own['s'] = G.PtrInfo('s', 'link', Sub)
+        c = G.PtrInfo('c', 'prop', 'str')
+        c.computed = G.Path(None, [('p', 's'), ('p', 'name')])
+        Tg.own['c'] = c
+    elif kind == 'function':
+        u.fns.append(G.FnInfo(mt, 'xf', [('a', 'str')], 'str',
+                              G.Op('++', G.Raw('a'), G.Cast('str', G.Call(None, 'count', [G.Path(Sub, [('p', 'name')])]))), 0))
+    elif kind == 'lprop':
+        c = G.PtrInfo('c', 'prop', 'str')
+        c.computed = G.Path(None, [('p', 'parent'), ('lp', 'lp')])
+        Sub.own['c'] = c
+    elif kind == 'index-constraint':
+        Sub.extras = [('index', sname), ('con_expr', G.Op('!=', sname, G.Lit('q')))]
+    elif kind == 'overload-default':
+        Sub.own['name'] = G.PtrInfo('name', 'prop', 'str', overloaded=True,
+                                    extras=[('default', G.Op('++', G.Lit('d'), G.Lit('e')))])
+    elif kind == 'alias':
+        u.aliases.append(((mt, 'XAL'), G.Shape(Sub, [('z', G.Op('++', sname, G.Lit('x')))])))
+    elif kind == 'policy':
+        Sub.extras = [('policy', 'xpol', G.Call(None, 'any', [G.Op('=', sname, G.Lit('a'))]))]
+    elif kind == 'abslink-lprop':
+        al = (mb, 'xal')
+        u.abslinks.append((al, ['alp']))
+        Sub.own['l'] = G.PtrInfo('l', 'link', Tg, ext=al, ext_lprops=['alp'])
+        c = G.PtrInfo('c', 'prop', 'str')
+        c.computed = G.Path(None, [('p', 'l'), ('lp', 'alp')])
+        Sub.own['c'] = c
+    elif kind == 'count-type':
+        # a computable mentioning the subtype depends on the constraints of all its ancestors
+        c = G.PtrInfo('c', 'prop', 'str')
+        c.computed = G.Cast('str', G.Call(None, 'count', [G.ObjRef(Sub.key)]))
+        Tg.own['c'] = c
+    elif kind == 'call':
+        # function in the ancestor's module, called with an inherited property
+        u.fns.append(G.FnInfo(mb, 'xg', [('a', 'str')], 'str', G.Op('++', G.Raw('a'), G.Lit('g')), 0))
+        u.fns.append(G.FnInfo(mb, 'xg', [('a', 'int64')], 'str', G.Raw('<str>a'), 1))
+        c = G.PtrInfo('c', 'prop', 'str')
+        c.computed = G.Call(mb, 'xg', [sname])
+        Sub.own['c'] = c
+    elif kind == 'con-anno':
+        # abstract constraint / annotation declared in the ancestor's module, used on an overload
+        u.cons.append((mb, 'xco'))
+        u.annos.append((mb, 'xan'))
+        Sub.own['name'] = G.PtrInfo('name', 'prop', 'str', overloaded=True,
+                                    extras=[('con_user', (mb, 'xco')), ('anno_user', (mb, 'xan'), 'v')])
+    else:
+        raise AssertionError(kind)
+    u.types = types
+    return u
+
+
+def xmod_family_doc(kind, placement):
+    u = _xmod_universe(kind, placement)
+    b = G.Builder(u, random.Random(0), cg, cg_params)
+    by = {}
+    for n in b.nodes():
+        by.setdefault(n.mod, []).append(n)
+    blocks = {m: G.Block(m, m, by.get(m, [])) for m in by}
+    top = []
+    for m in sorted(blocks):
+        if '::' in m:
+            parent = m.rsplit('::', 1)[0]
+            blocks[m].short = m.rsplit('::', 1)[1]
+            blocks.setdefault(parent, G.Block(parent, parent, []))
+    for m in sorted(blocks):
+        if '::' in m:
+            blocks[m.rsplit('::', 1)[0]].entries.append(blocks[m])
+        else:
+            top.append(blocks[m])
+    doc = G.Doc(top, label=f'xmod:{placement}:{kind}')
+    doc.meta.update(size='family', cyclic=None, family=f'{placement}:{kind}', xmod=True)
+    return doc
+
+
+def _arrangements(entries):
+    """every order of `entries`, nested module blocks arranged recursively"""
+    for perm in itertools.permutations(entries):
+        choices = []
+        for e in perm:
+            if isinstance(e, G.Block):
+                choices.append([G.Block(e.mod, e.short, list(a)) for a in _arrangements(e.entries)])
+            else:
+                choices.append([e])
+        for combo in itertools.product(*choices):
+            yield list(combo)
+
+
+def arrangement_variants(doc, rng, cap):
+    """ALL arrangements of the document (orders of the top-level blocks x orders inside every
+    block, nested blocks included); when there are more than `cap`, an evenly spaced sample that
+    keeps the first and the last one"""
+    arrs = list(itertools.islice(_arrangements(doc.top), 20000))[1:]
+    full = len(arrs) <= cap
+    if not full:
+        # evenly spaced, the LAST arrangement (everything reversed) always included
+        step = (len(arrs) - 1) / max(1, cap - 1)
+        arrs = [arrs[round(i * step)] for i in range(cap)] if cap > 1 else [arrs[-1]]
+    out = []
+    for i, a in enumerate(arrs):
+        d = G.copy_doc(G.Doc(a, doc.label, dict(doc.meta)))
+        for sbody in G.sites(d, 'body'):
+            rng.shuffle(sbody)
+        out.append((f'arrangement:{i}', 'module', d))
+    return out, {'module': full, 'top': full}
 
 
 def gen_doc(rng, size, cyclic=False):
@@ -841,10 +1011,10 @@ def run(ctx: core.Ctx):
 def plans(quick: bool):
     """(size, permutations per document) for acyclic and injected-cycle documents.
     Measured: one load costs 0.1 s (10 nodes) .. 6 s (80 nodes with many expressions);
-    quick stays around 350 generated loads + 460 weak-edge-family loads (all declaration
-    orders) + 380 probe loads: 1.5-2 min on an idle 16-core machine, ~3 min when it is shared."""
+    quick: ~280 generated loads + ~290 weak-edge-family loads + ~280 cross-module-family loads
+    + 380 probe loads: ~1.5 min on an idle 16-core machine, 3-4 min when it is shared."""
     if quick:
-        return ([('tiny', 16)] * 16 + [('small', 10)] * 6 + [('large', 4)] * 1,
+        return ([('tiny', 14)] * 14 + [('small', 8)] * 5 + [('large', 3)] * 1,
                 [('tiny', 5)] * 3 + [('small', 4)] * 1)
     return ([('tiny', 60)] * 100 + [('small', 30)] * 50 + [('large', 10)] * 12,
             [('tiny', 16)] * 24 + [('small', 10)] * 8)
@@ -885,8 +1055,15 @@ def _run(ctx, pool, proved):
         docs.append((gen_doc(rng, size, cyclic=True), budget))
     fam_expect = {}
     for label, form, variant, expect in WEAK_FAMILIES:
-        docs.append((weak_family_doc(label, form, variant), 120 if quick else 720))
+        full = variant in ('chain2', 'hidden-fn-cycle')     # all orders even in the quick tier
+        docs.append((weak_family_doc(label, form, variant), 720 if (full or not quick) else 24))
         fam_expect[len(docs) - 1] = (label, expect)
+    for placement in XMOD_PLACEMENTS:
+        for kind in XMOD_KINDS:
+            if kind == 'mid-overload' and placement == 'nested':
+                continue
+            docs.append((xmod_family_doc(kind, placement), 2 if quick else 5000))
+            fam_expect[len(docs) - 1] = (f'xmod:{placement}:{kind}', 'ok')
 
     tasks, lines, index = [], [], []          # index[i] = (doc idx, variant idx, label, level)
     nums, bases, exh = [], [], []
@@ -895,7 +1072,9 @@ def _run(ctx, pool, proved):
         nums.append(num)
         base_sdl = G.render(doc)
         bases.append(base_sdl)
-        if doc.meta.get('family'):
+        if doc.meta.get('xmod'):
+            vs, ex = arrangement_variants(doc, rng, budget)
+        elif doc.meta.get('family'):
             vs, ex = family_variants(doc, rng, budget)
         else:
             vs, ex = pick_variants(doc, rng, budget)
@@ -996,8 +1175,8 @@ def _run(ctx, pool, proved):
             fam_hist[flabel] = got
             if got != [expect]:
                 bad = next((x for x in vs if outcome_sig(x[4])[0] != expect))
-                ctx.fail(f'weak:{flabel}:verdict',
-                         f'weak-edge family: expected {expect} in every declaration order, got {got} '
+                ctx.fail(f'{flabel}:verdict' if flabel.startswith('xmod:') else f'weak:{flabel}:verdict',
+                         f'family: expected {expect} in every declaration order, got {got} '
                          f'({sum(1 for x in vs if outcome_sig(x[4])[0] != expect)} of {len(vs)} orders differ)',
                          {'sdls': [bad[3]], 'errs': [bad[4]['err']], 'label': bad[1]})
         outs = {}
@@ -1135,7 +1314,8 @@ def _run(ctx, pool, proved):
         'emitted_orders_compared': n_order_cmp,
         'delta_schemas_pairs': n_delta,
         'model_incomplete_documents': incomplete,
-        'weak_edge_families': fam_hist,
+        'weak_edge_families': {k: v for k, v in fam_hist.items() if not k.startswith('xmod:')},
+        'cross_module_families': {k: v for k, v in fam_hist.items() if k.startswith('xmod:')},
         'probes': probe_hist, 'cycle_families': cyc_hist, 'model_families_compared': len(MODEL_FAMILIES),
         'disagreements_model_vs_impl': n_dis,
         'exhaustive': False,
